@@ -295,6 +295,8 @@ def for_to_while(sh, lp, ordinal, inv_text, body_prefix):
                 base = '&' + _paren(mm.group(1))
             elif e.startswith('&') and not e.startswith('&mut'):
                 base = e
+            elif re.match(r'^[A-Za-z_][A-Za-z0-9_.]*$', e):
+                base = e          # a plain place expression: must already be a reference to a slice / Vec (type-checked by `: &[_]`)
             else:
                 raise ExtractError('R7: unsupported iteration expression %r' % expr)
     label = t[lp['start']:lp['kw_idx']]
